@@ -406,6 +406,58 @@ def ob_mixed(gridname, name, primal, dual, seg):
     return held("relative difference %.2e, %s" % (r["relative_error"], r["shape"]))
 
 
+def replay_bc_divergence(mesh, kind, seed):
+    """Flux pattern of the BC / RBC basis functions read off the dof transformation: for the function of the coarse edge (v1, v2) the integral of the surface
+    divergence over a barycentric element adjacent to an INTERIOR end point v is +-1 / (2 n_v) (n_v coarse triangles at v; one sign per end point, opposite signs at
+    the two end points), and 0 over every other barycentric element - in particular over the rings of end points on the grid boundary (the border coefficients are
+    piecewise constant around such a vertex, the interior ones a linear ramp)."""
+    import bempp_cl.api as api
+
+    warnings.simplefilter("ignore")
+    v, e = PL._mesh(mesh)
+    v = np.asarray(v, dtype=float) + 0.05 * np.random.RandomState(seed).randn(*np.asarray(v).shape)
+    g = SG.make_grid(v, e)
+    sp = api.function_space(g, kind, 0)
+    rw = api.function_space(g, "RWG", 0)
+    bary = sp.grid
+    T = BC.dense(sp.dof_transformation)
+    nv = g.number_of_vertices
+    lengths = np.linalg.norm(bary.vertices[:, bary.edges[0]] - bary.vertices[:, bary.edges[1]], axis=0)
+    adj = {}
+    for E in range(g.number_of_elements):
+        for k in range(3):
+            adj.setdefault(int(g.elements[k, E]), []).append(E)
+    bad = []
+    for d in range(T.shape[1]):
+        E, i = rw.global2local[d][0]
+        edge = int(g.element_edges[i, E])
+        ends = [int(x) for x in g.edges[:, edge]]
+        signs = {}
+        for b in np.flatnonzero(sp.support):
+            b = int(b)
+            D = sum(T[int(sp.local2global[b, j]), d] * lengths[int(bary.element_edges[j, b])] for j in range(3))
+            w = [int(x) for x in bary.elements[:, b] if int(x) < nv][0]
+            if w in ends and not g.vertex_on_boundary[w]:
+                want = 1.0 / (2 * len(adj[w]))
+                if abs(abs(D) - want) > 1e-11:
+                    bad.append({"dof": d, "barycentric_element": b, "vertex": w, "integral_of_divergence": float(D), "required_magnitude": want})
+                signs.setdefault(w, set()).add(float(np.sign(D)))
+            elif abs(D) > 1e-11:
+                bad.append({"dof": d, "barycentric_element": b, "vertex": w, "integral_of_divergence": float(D), "required_magnitude": 0.0})
+        if any(len(x) > 1 for x in signs.values()) or (len(signs) == 2 and len({tuple(x) for x in signs.values()}) == 1):
+            bad.append({"dof": d, "signs_at_end_points": {str(k): sorted(x) for k, x in signs.items()}})
+    return {"violates": bool(bad), "bad": bad[:6], "count": len(bad), "dofs": int(T.shape[1])}
+
+
+def ob_bc_divergence(mesh, kind, seed):
+    r = replay_bc_divergence(mesh, kind, seed)
+    if r["violates"]:
+        return violated("%s on %s: the divergence (flux) pattern of %d basis-function / barycentric-element pairs is not that of a Buffa-Christiansen function: %s"
+                        % (kind, mesh, r["count"], r["bad"][:2]), witness=r["bad"][0], signature="bc-divergence/%s" % kind,
+                        replay={"callable": "checks.c10:replay_bc_divergence", "kwargs": {"mesh": mesh, "kind": kind, "seed": seed}, "confirmed": True})
+    return held("%d basis functions: +-1/(2n) on the rings of interior end points, 0 elsewhere" % r["dofs"])
+
+
 def main():
     run = Run("C10", "other")
     thorough = run.tier == "thorough"
@@ -436,6 +488,9 @@ def main():
     for gridname in ["octa", "tetra"] + (["cube12"] if thorough else []):
         for name, primal, dual in MIXED:
             run.add("mixed-mass[%s %s]" % (gridname, name), "bounded", ob_mixed, gridname, name, primal, dual, None)
+    for mesh in ["tetra", "octa", "screen2", "screen3"] + (["cube12", "torus33"] if thorough else []):
+        for kind in ("BC", "RBC"):
+            run.add("bc-divergence-pattern[%s %s]" % (mesh, kind), "bounded", ob_bc_divergence, mesh, kind, 1)
     run.add("mixed-mass[octa P1 x DUAL0 segments]", "bounded", ob_mixed, "octa", "P1 x DUAL0", ("P", 1, {}), ("DUAL", 0, {}), (2,))
     run.add("mixed-mass[octa DP0 x DUAL1 segments]", "bounded", ob_mixed, "octa", "DP0 x DUAL1", ("DP", 0, {}), ("DUAL", 1, {}), (2,))
     run.add("mixed-mass[octa SNC x BC segments]", "bounded", ob_mixed, "octa", "SNC x BC", ("SNC", 0, {}), ("BC", 0, {}), (2,))
@@ -443,7 +498,9 @@ def main():
     run.bound("representation: topologies %s, symbolic geometry / coefficients / point" % meshes)
     run.bound("dual nodal tables: zoo grids x (all supports when <= 10 (thorough 40), else a fixed random sample) x option combinations")
     run.bound("mixed mass matrices: octahedron, tetrahedron (thorough: cube), regular order 4 (exact for the piecewise polynomial integrands by C12)")
-    run.assume("BC / RBC functions are taken as defined by their dof transformation (their conformity is C09); only their pairing with primal spaces is checked here")
+    run.assume("BC / RBC functions: conformity is C09; here their flux pattern (charges +-1 spread over the dual cells of the interior end points, none elsewhere) and their "
+               "pairing with primal spaces are checked; the choice of the divergence-free completion around end points on the grid boundary is orientation dependent "
+               "(mirror images of an open grid give different, equally admissible functions) and is not constrained")
     run.assume("vertex valence n of the DUAL1 nodal value 1/n counts all coarse triangles of the grid at the vertex (also outside a segment)")
     run.assume("scipy coo_matrix sums duplicates; sparse products are matrix products")
     return run.finish()
